@@ -16,36 +16,44 @@ def tu_check(tu):
 
 
 def fix_pickle(res):
-    """_fix_pickle maps every Python class to the C class of the same family
-    and kind: raw_name = prefix + kind, py_name = raw_name + 'Py'."""
+    """The class swap that makes Python objects pickle under the C names
+    (facts keyed on attribute names, see stateshape.py_class_swap) and the
+    dataflow of __reduce__: the class it returns comes from the `__class__`
+    property, which returns `_BTree_reduce_as` of the type."""
+    ss.py_class_swap(res)
     tree = pyfront.base_py()
-    fn = pyfront.functions(tree).get("_fix_pickle")
-    if fn is None:
-        raise AnalysisError("anchor vanished: _base._fix_pickle")
-    src = pyfront.unparse(fn)
-    n = 0
-    for need, why in (
-            ("for name in ('Bucket', 'Set', 'BTree', 'TreeSet', 'TreeIterator')", "all four kinds are swapped"),
-            ("raw_name = mod_prefix + name", "the C name is prefix + kind"),
-            ("py_name = raw_name + 'Py'", "the Python class is named <C name>Py"),
-            ("py_type._BTree_reduce_as = raw_type", "the Python class pickles as the C class"),
-            ("mod_prefix = mod_name.split('.')[-1][:2]", "the prefix is taken from the module name")):
-        n += 1
-        if need not in src:
-            res.findings.add(dict(
-                rule="TYPE-NAMES", function="_fix_pickle", file=SRC + "/_base.py", line=fn.lineno,
-                construct="_fix_pickle lacks `%s`" % need,
-                detail="the class swap that makes Python objects pickle under "
-                       "the C class names changed (%s)" % why, path=[]))
-    # __reduce__ uses the swapped class
     base = pyfront.classes(tree)["_Base"]
-    red = pyfront.class_members(base).get("__reduce__")
+    mem = {}
+    for n in ast.walk(base):
+        if isinstance(n, ast.FunctionDef):
+            mem[n.name] = n
+    n = 0
+    red = mem.get("__reduce__")
     n += 1
-    if not isinstance(red, ast.FunctionDef) or "typ = self.__class__" not in pyfront.unparse(red):
+    ok = False
+    if isinstance(red, ast.FunctionDef):
+        # the returned tuple's class element is a name assigned from self.__class__
+        names = set(pyfront.unparse(a.targets[0]) for a in ast.walk(red)
+                    if isinstance(a, ast.Assign) and pyfront.unparse(a.value) == "self.__class__")
+        for r in ast.walk(red):
+            if isinstance(r, ast.Return) and r.value is not None:
+                used = set(x.id for x in ast.walk(r.value) if isinstance(x, ast.Name))
+                if names & used or "self.__class__" in pyfront.unparse(r.value):
+                    ok = True
+    if not ok:
         res.findings.add(dict(
             rule="TYPE-NAMES", function="_Base.__reduce__", file=SRC + "/_base.py", line=base.lineno,
             construct="__reduce__ does not use the swapped class",
             detail="Python objects would pickle under their own (Py) class names", path=[]))
+    cp = mem.get("__class__")
+    n += 1
+    if not isinstance(cp, ast.FunctionDef) or not any(
+            isinstance(x, ast.Attribute) and x.attr == "_BTree_reduce_as" for r in ast.walk(cp)
+            if isinstance(r, ast.Return) and r.value is not None for x in ast.walk(r.value)):
+        res.findings.add(dict(
+            rule="TYPE-NAMES", function="_Base.__class__", file=SRC + "/_base.py", line=base.lineno,
+            construct="the __class__ property does not return _BTree_reduce_as",
+            detail="the class __reduce__ writes would be the *Py class", path=[]))
     res.count("PY-TYPE-NAMES", n)
 
 
